@@ -164,17 +164,17 @@ pub fn output_diff_json(old: &str, new: &str) -> Option<Vec<DiffMismatch>> {
                     old_len,
                     new_index,
                 } => {
-                    let actual = text_diff
+                    let actual: String = text_diff
                         .iter_changes(&op)
-                        .next()
-                        .expect("no actual change present in diff/delete");
+                        .map(|change| change.value())
+                        .collect();
 
                     mismatches.push(DiffMismatch {
                         original_start_line: old_index,
                         original_end_line: old_index + old_len - 1,
                         expected_start_line: new_index,
                         expected_end_line: new_index,
-                        original: actual.to_string(),
+                        original: actual,
                         expected: "".to_string(),
                     })
                 }
@@ -183,10 +183,10 @@ pub fn output_diff_json(old: &str, new: &str) -> Option<Vec<DiffMismatch>> {
                     new_index,
                     new_len,
                 } => {
-                    let expected = text_diff
+                    let expected: String = text_diff
                         .iter_changes(&op)
-                        .next()
-                        .expect("no actual change present in diff/insert");
+                        .map(|change| change.value())
+                        .collect();
 
                     mismatches.push(DiffMismatch {
                         original_start_line: old_index,
@@ -194,7 +194,7 @@ pub fn output_diff_json(old: &str, new: &str) -> Option<Vec<DiffMismatch>> {
                         expected_start_line: new_index,
                         expected_end_line: new_index + new_len - 1,
                         original: "".to_string(),
-                        expected: expected.to_string(),
+                        expected,
                     })
                 }
                 DiffOp::Equal { .. } => (), // Don't record an equals diff, its unnecessary
